@@ -239,8 +239,16 @@ fn judge_image(
 
 pub fn err_class(e: &str) -> String {
     // keep the error kind, drop numbers
-    let s: String = e.chars().map(|c| if c.is_ascii_digit() { '#' } else { c }).collect();
-    let s = s.replace(' ', "_");
+    let mut s = String::new();
+    for c in e.chars() {
+        if c.is_ascii_digit() {
+            if !s.ends_with('#') {
+                s.push('#');
+            }
+        } else {
+            s.push(if c == ' ' { '_' } else { c });
+        }
+    }
     crate::framework::truncate(&s, 60)
 }
 
@@ -533,7 +541,7 @@ impl Check for CrashCheck {
         "fault_enumeration"
     }
     fn budget(&self, tier: &str) -> usize {
-        if tier == "thorough" { 25000 } else { 1200 }
+        if tier == "thorough" { 25_000 } else { 1_500 }
     }
     fn gen_case(&self, seed: u64, _idx: usize, tier: &str, avoid: &[String]) -> Case {
         let mut rng = Rng::new(seed, "workload");
